@@ -20,7 +20,7 @@ import (
 //     (an error after the commit point, e.g. the directory fsync, may report a failure
 //     for a change that is in effect) - never a third state.
 var errnoFor = map[string]string{"write": "ENOSPC", "pwrite64": "ENOSPC", "writev": "ENOSPC", "fsync": "EIO", "fdatasync": "EIO",
-	"rename": "EIO", "renameat": "EIO", "renameat2": "EIO", "ftruncate": "EIO", "read": "EIO", "pread64": "EIO", "unlink": "EIO", "unlinkat": "EIO", "openat": "EACCES"}
+	"rename": "EIO", "renameat": "EIO", "renameat2": "EIO", "ftruncate": "EIO", "read": "EIO", "pread64": "EIO", "unlink": "EIO", "unlinkat": "EIO", "openat": "EACCES", "flock": "ENOLCK"}
 
 func errorPoints(calls []TraceCall) []Inject {
 	count := map[string]int{}
@@ -134,9 +134,10 @@ func runFaultErrTest(t *testing.T, prop, test string, gen func(rt *rapid.T, w *W
 		nsetup := between(rt, 2, 8, "setup.n")
 		for i := 0; i < nsetup; i++ {
 			op := genOp(rt, w, pre, *faultSetupProfile)
-			if i == 0 && pct(rt, 20, "setup.big") {
+			if i == nsetup-1 && pct(rt, 20, "setup.big") {
 				// a log that no reader gets in one read(2)
 				op = Op{Kind: "new_task", Mode: "bodystdin", Title: sp(w.UniqueTitle("big")), Body: sp(bigBody(between(rt, 66000, 250000, "setup.bigsize")))}
+				stats.Label("log_over_64KiB_behind_smaller_events")
 			}
 			op.N = i
 			out := w.Step(pre, op)
